@@ -27,6 +27,11 @@ func init() {
 				return 400000
 			}
 			return 12000
+		}}, {Name: "tiny_magnitude", NumCases: func(t string) int {
+			if t == "thorough" {
+				return 20000
+			}
+			return 1500
 		}}, {Name: "through_vertex", NumCases: func(t string) int {
 			if t == "thorough" {
 				return 200000
@@ -36,7 +41,7 @@ func init() {
 		Run: run,
 		Floors: func(t string) map[string]int64 {
 			return map[string]int64{"cfg.entirely_inside": 100, "cfg.entirely_outside_bbox_overlap": 100, "cfg.entirely_outside_bbox_disjoint": 100, "cfg.crosses_hole": 100, "cfg.enters_several_times": 200, "cfg.two_vertex_line": 100,
-				"recv.MultiLineString": 300, "arg.*Bounds": 100, "arg.MultiPolygon": 300, "arg.Polygon": 300, "result.vertices_checked": 5000, "line.long": 100, "line.axis_parallel": 500, "line.all_vertices_in_one_hole": 300, "line.vertices_around_one_hole": 300, "line.long_approach>=511": 150, "line.members_close_a_loop": 100, "line.loop_with_a_member_ending_at_a_junction": 40, "line.around_the_member_in_the_bay_of_another": 150, "through_vertex.cases": 10000, "through_vertex.line_enters_the_polygon": 3000, "line.members_share_an_end_point": 100, "storage.paths_share_one_backing_array": 500}
+				"recv.MultiLineString": 300, "arg.*Bounds": 100, "arg.MultiPolygon": 300, "arg.Polygon": 300, "result.vertices_checked": 5000, "line.long": 100, "line.axis_parallel": 500, "line.all_vertices_in_one_hole": 300, "line.vertices_around_one_hole": 300, "line.long_approach>=511": 150, "line.members_close_a_loop": 100, "line.loop_with_a_member_ending_at_a_junction": 40, "line.around_the_member_in_the_bay_of_another": 150, "scale.1e-13..1e-10": 700, "through_vertex.cases": 10000, "through_vertex.line_enters_the_polygon": 3000, "line.members_share_an_end_point": 100, "storage.paths_share_one_backing_array": 500}
 		},
 	})
 }
@@ -171,8 +176,25 @@ func run(c *core.Ctx, idx int) {
 	}
 	r := c.R
 	scale := math.Pow(10, r.Range(-2, 3))
+	// An extra phase documents a defect of the external clipper at small magnitudes (absolute
+	// tolerances); everything it reports goes under one key.
+	violate := func(key, what string, detail map[string]interface{}) {
+		switch c.Phase {
+		case "tiny_magnitude":
+			key = "tiny-magnitude-operands"
+		}
+		c.Violate(key, what, detail)
+	}
+	switch c.Phase {
+	case "tiny_magnitude":
+		scale = math.Pow(10, r.Range(-13, -10))
+		c.Count("scale.1e-13..1e-10")
+	}
 	ox, oy := r.Range(-5, 5)*scale, r.Range(-5, 5)*scale
 	cfgHint := r.Intn(10)
+	if c.Phase != "clip" {
+		cfgHint = r.Intn(6) // the plain configurations
+	}
 	kind := polyKinds[r.Intn(len(polyKinds))]
 	if cfgHint == 6 {
 		kind = "starholes" // every line vertex inside one (concave) hole, in different arms of it
@@ -531,7 +553,7 @@ func run(c *core.Ctx, idx int) {
 		return
 	}
 	if ok, why := gen.SameStructure(before, lin); !ok {
-		c.Violate("input-modified", "Clip modified the line: "+why, detail)
+		violate("input-modified", "Clip modified the line: "+why, detail)
 	}
 	var pieces geom.MultiLineString
 	switch t := res.(type) {
@@ -541,7 +563,7 @@ func run(c *core.Ctx, idx int) {
 	case geom.LineString:
 		pieces = geom.MultiLineString{t}
 	default:
-		c.Violate("result-type", fmt.Sprintf("Clip returned %T", res), detail)
+		violate("result-type", fmt.Sprintf("Clip returned %T", res), detail)
 		return
 	}
 	detail["result"] = gen.Dump(pieces)
@@ -553,12 +575,12 @@ func run(c *core.Ctx, idx int) {
 	}
 	if wantIn == 0 {
 		if nonEmpty {
-			c.Violate("not-empty", fmt.Sprintf("the line does not enter the polygon but Clip returned %d pieces", len(pieces)), detail)
+			violate("not-empty", fmt.Sprintf("the line does not enter the polygon but Clip returned %d pieces", len(pieces)), detail)
 		}
 		return
 	}
 	if !nonEmpty {
-		c.Violate("empty", fmt.Sprintf("the line has %v of its length inside the polygon but Clip returned nothing", wantIn), detail)
+		violate("empty", fmt.Sprintf("the line has %v of its length inside the polygon but Clip returned nothing", wantIn), detail)
 		return
 	}
 	gotLen := pieces.Length()
@@ -571,22 +593,22 @@ func run(c *core.Ctx, idx int) {
 		if refLen > wantIn {
 			kind = "too-long"
 		}
-		c.Violate("length:"+kind, fmt.Sprintf("clipped pieces have total length %v, the intersection of line and polygon has %v", refLen, wantIn), detail)
+		violate("length:"+kind, fmt.Sprintf("clipped pieces have total length %v, the intersection of line and polygon has %v", refLen, wantIn), detail)
 		return
 	}
 	if math.Abs(gotLen-refLen) > 1e-12*math.Max(refLen, diam) {
-		c.Violate("length-method", fmt.Sprintf("Length() of the result = %v, its segments sum to %v", gotLen, refLen), detail)
+		violate("length-method", fmt.Sprintf("Length() of the result = %v, its segments sum to %v", gotLen, refLen), detail)
 	}
 	for _, p := range pieces {
 		for _, v := range p {
 			c.Count("result.vertices_checked")
 			e := gen.EP(v)
 			if d := distToLines(e, lines); d > 1e-9*diam {
-				c.Violate("vertex-off-line", fmt.Sprintf("result vertex %s is %v away from the line", gen.PtStr(v), d), detail)
+				violate("vertex-off-line", fmt.Sprintf("result vertex %s is %v away from the line", gen.PtStr(v), d), detail)
 				return
 			}
 			if exact.PointInRings(e, op.Rings, 3) == exact.Outside && exact.DistToRings(e, op.Rings) > 1e-9*diam {
-				c.Violate("vertex-outside-polygon", fmt.Sprintf("result vertex %s lies outside the polygon", gen.PtStr(v)), detail)
+				violate("vertex-outside-polygon", fmt.Sprintf("result vertex %s lies outside the polygon", gen.PtStr(v)), detail)
 				return
 			}
 		}
